@@ -307,13 +307,36 @@ func caseTable(w *World, p *packages.Package, fd *ast.FuncDecl, tagName string, 
 
 // fmtSubst maps the names the port changed onto common ones.
 var fmtSubst = map[string]string{"formatter": "$F", "fmt": "$F", "fmtbuf": "$B", "buffer": "$B",
-	"WriteSingleByte": "writeByte", "WriteString": "writeString", "Write": "write", "WriteRune": "writeRune"}
+	"WriteSingleByte": "writeByte", "WriteString": "writeString", "Write": "write", "WriteRune": "writeRune", "clearFlags": "clearflags"}
 
 var fmtPortIdentical = []string{
 	"formatter.fmtBoolean", "formatter.fmtUnicode", "formatter.truncateString", "formatter.truncate",
 	"formatter.fmtS", "formatter.fmtBs", "formatter.fmtSx", "formatter.fmtBx", "formatter.fmtQ", "formatter.fmtQc",
 	"pp.Width", "pp.Precision", "pp.Flag", "tooLarge", "parsenum", "pp.fmtBool", "pp.fmt0x64", "pp.fmtFloat",
-	"pp.fmtString", "parseArgNumber", "pp.argNumber",
+	"pp.fmtString", "parseArgNumber", "pp.argNumber", "formatter.pad", "formatter.padString",
+}
+
+// fmtNearPorts: functions that are ports with a few known differences. Every
+// statement (flattened, alpha-normalised) that is not matched in the reference
+// must be explained: a MaxStringLen guard added by the port, or a tabled
+// difference recognised by a marker (substring of the tengo statement's source,
+// or of the reference statement's canonical form). One line of reason each.
+var fmtNearPorts = map[string]struct {
+	tengo, ref []string
+	why        string
+}{
+	"formatter.writePadding": {[]string{"f.zero"}, []string{"zero", "minus"}, "newer fmt ignores the 0 flag when - is set inside writePadding; the port predates it (version skew, flag handling is in doFormat)"},
+	"formatter.fmtInteger":   {[]string{"widPresent"}, []string{"widPresent"}, "same version skew in the zero-padding condition"},
+	"formatter.fmtSbx":       {nil, nil, "only the limit guard differs"},
+	"formatter.fmtC":         {[]string{"EncodeRune", "f.pad(buf[:w])"}, []string{"AppendRune"}, "utf8.AppendRune did not exist when the port was made"},
+	"pp.fmtInteger":          {[]string{"MaxRune", "badVerb"}, nil, "the port keeps the `v <= utf8.MaxRune` guard of %q"},
+	"pp.fmtBytes":            {nil, []string{"=case", "printValue"}, "no reflection fallback for other verbs"},
+	"pp.doFormat": {[]string{"defer func()", "p.fmt.zero = !p.fmt.minus", "p.fmt.zero = false", "if c == 'v'", "UndefinedValue.String()", "arg.TypeName()", "return nil"},
+		[]string{"zero () ) true", "switch _ $", "wrappedErrs", "fallthrough", "'w' ()", "=case 'v' () |", "nilAngleString", "TypeOf"},
+		"doPrintf of a newer fmt: %w bookkeeping, '0' after '-' handled in the flag switch, objects print through TypeName()/String(); the recover wrapper and the error result are the port's"},
+	"pp.badArgNum":  {nil, nil, "writes go through pp's Write* methods"},
+	"pp.missingArg": {nil, nil, "writes go through pp's Write* methods"},
+	"pp.badVerb":    {[]string{"p.arg.String()", "UndefinedValue"}, []string{"TypeOf", "IsValid", "Type ()", "printValue", "nilAngleString", "'=' ()"}, "objects print through String(); there is no reflect.Value"},
 }
 
 func ruleFMT4(c *Ctx) {
@@ -395,6 +418,205 @@ func ruleFMT4(c *Ctx) {
 		}
 		a, b := canonFuncBody(p, mf, sub), canonFuncBody(ref, rf, sub)
 		c.check(a == b, "port/"+fn, mf, "identical to fmt's (alpha-normalised)", fmt.Sprintf("%s diverges from the fmt function it ports: %s", fn, firstDiff(a, b)))
+	}
+}
+
+func fmtRefName(fn string) string {
+	if fn == "pp.doFormat" {
+		return "pp.doPrintf"
+	}
+	return strings.Replace(strings.Replace(fn, "formatter.", "fmt.", 1), "fmtbuf.", "buffer.", 1)
+}
+
+// fmtHelpers resolves calls to unexported functions of package tengo that
+// have no counterpart in fmt: helpers a refactoring extracted from a port.
+func fmtHelpers(w *World, p, ref pkgT) helperLookup {
+	decl := map[*types.Func]*ast.FuncDecl{}
+	w.AllFuncDecls(p, func(fd *ast.FuncDecl) {
+		if fn, ok := p.TypesInfo.Defs[fd.Name].(*types.Func); ok {
+			decl[fn] = fd
+		}
+	})
+	refNames := map[string]bool{}
+	w.AllFuncDecls(ref, func(fd *ast.FuncDecl) { refNames[strings.ToLower(funcName(fd))] = true })
+	return func(call *ast.CallExpr) *ast.FuncDecl {
+		fd := decl[Callee(p, call)]
+		if fd == nil || ast.IsExported(fd.Name.Name) || refNames[strings.ToLower(fmtRefName(funcName(fd)))] {
+			return nil
+		}
+		return fd
+	}
+}
+
+// FMT.6: near-ports (see fmtNearPorts).
+func ruleFMT6(c *Ctx) {
+	w := c.W
+	p := w.Root
+	ref, err := w.loadRef("fmt")
+	if err != nil {
+		c.anchor("reference package fmt: " + err.Error())
+		return
+	}
+	for _, fn := range sortedKeys(fmtNearPorts) {
+		tab := fmtNearPorts[fn]
+		rn := fmtRefName(fn)
+		mf, rf := w.FuncDecl(p, fn), w.FuncDecl(ref, rn)
+		if mf == nil || rf == nil {
+			c.fail("near-port/"+fn, mf, "ported function missing in tengo or in the reference fmt")
+			continue
+		}
+		oa, ob := lcsDiff(flattenBody(p, mf, fmtSubst, fmtHelpers(w, p, ref)), flattenBody(ref, rf, fmtSubst))
+		var probs []string
+		for _, s := range oa {
+			if strings.HasPrefix(s.Text, "end-") || s.Text == "else" {
+				continue // structure markers follow their header
+			}
+			src := w.Src(s.Node)
+			if strings.Contains(src, "ErrStringLimit") || strings.Contains(src, "MaxStringLen") {
+				continue
+			}
+			ok := false
+			for _, m := range tab.tengo {
+				ok = ok || strings.Contains(src, m)
+			}
+			if !ok {
+				probs = append(probs, fmt.Sprintf("tengo-only statement `%.80s` (%s)", src, w.Site(s.Node)))
+			}
+		}
+		for _, s := range ob {
+			if strings.HasPrefix(s.Text, "end-") || s.Text == "else" {
+				continue
+			}
+			ok := false
+			for _, m := range tab.ref {
+				if strings.HasPrefix(m, "=") {
+					ok = ok || strings.TrimSpace(s.Text) == m[1:]
+				} else {
+					ok = ok || strings.Contains(s.Text, m)
+				}
+			}
+			if !ok {
+				probs = append(probs, fmt.Sprintf("statement of fmt's %s without counterpart: `%.80s`", rn, ref.Fset.Position(s.Node.Pos()).String()[strings.LastIndex(ref.Fset.Position(s.Node.Pos()).String(), "/")+1:]+" "+s.Text))
+			}
+		}
+		c.check(len(probs) == 0, "near-port/"+fn, mf, "equal to fmt's up to the limit guards and the tabled difference ("+tab.why+")", fn+" diverges from the fmt function it ports beyond the tabled differences: "+strings.Join(probs, "; "))
+	}
+}
+
+// FMT.7: printArg's type dispatch. fmt switches on Go types, the port on
+// tengo's object types; an arm for T (whose Value field has Go type G) must
+// be fmt's arm for G with `f.Value` in place of `f` (Bool: `!f.IsFalsy()`),
+// the default arm formats f.String() as a string, and %T / %v are served
+// first from TypeName() / String().
+func ruleFMT7(c *Ctx) {
+	w := c.W
+	p := w.Root
+	ref, err := w.loadRef("fmt")
+	if err != nil {
+		c.anchor("reference package fmt: " + err.Error())
+		return
+	}
+	mf, rf := w.FuncDecl(p, "pp.printArg"), w.FuncDecl(ref, "pp.printArg")
+	if mf == nil || rf == nil {
+		c.anchor("pp.printArg in tengo / fmt")
+		return
+	}
+	typeSwitch := func(fd *ast.FuncDecl) *ast.TypeSwitchStmt {
+		var ts *ast.TypeSwitchStmt
+		ast.Inspect(fd.Body, func(n ast.Node) bool {
+			if x, ok := n.(*ast.TypeSwitchStmt); ok && ts == nil {
+				ts = x
+			}
+			return true
+		})
+		return ts
+	}
+	mts, rts := typeSwitch(mf), typeSwitch(rf)
+	if mts == nil || rts == nil {
+		c.anchor("type switch of printArg")
+		return
+	}
+	render := func(pk pkgT, fd *ast.FuncDecl, cc *ast.CaseClause) string {
+		cz := newCanon(pk, fd, fmtSubst)
+		if fd.Recv != nil {
+			cz.node(fd.Recv)
+		}
+		cz.node(fd.Type.Params)
+		cz.b.Reset()
+		if o := pk.TypesInfo.Implicits[cc]; o != nil {
+			cz.names[o] = "\x00$F () "
+		}
+		for _, s := range cc.Body {
+			cz.node(s)
+			cz.b.WriteString("; ")
+		}
+		return strings.Join(strings.Fields(cz.b.String()), " ")
+	}
+	// reference arms by Go type
+	refArm := map[string]string{}
+	for _, cl := range rts.Body.List {
+		cc := cl.(*ast.CaseClause)
+		for _, e := range cc.List {
+			if tv, ok := ref.TypesInfo.Types[e]; ok && tv.IsType() {
+				refArm[types.TypeString(tv.Type, nil)] = render(ref, rf, cc)
+			}
+		}
+	}
+	n := 0
+	hasDefault := false
+	for _, cl := range mts.Body.List {
+		cc := cl.(*ast.CaseClause)
+		if cc.List == nil {
+			hasDefault = true
+			got := render(p, mf, cc)
+			want := strings.ReplaceAll(refArm["string"], "$F () ", "call (SelectorExpr ($F () String () ) ) ")
+			c.check(got == want && want != "", "printarg/default", cc, "any other object is formatted as the string its String() yields", "the default arm of printArg is not fmt's string arm applied to f.String(): "+firstDiff(got, want))
+			n++
+			continue
+		}
+		for _, e := range cc.List {
+			tn, _ := namedName(p.TypesInfo.Types[e].Type)
+			key := "printarg/" + tn
+			n++
+			var g string
+			valueExpr := "SelectorExpr ($F () Value () ) "
+			if tn == "Bool" {
+				g = "bool"
+				valueExpr = "un! (call (SelectorExpr ($F () IsFalsy () ) ) ) "
+			} else if f := structField(p.Types, tn, "Value"); f != nil {
+				g = types.TypeString(f.Type(), nil)
+			}
+			want, ok := refArm[g]
+			if !ok {
+				c.fail(key, cc, fmt.Sprintf("no arm for Go type %q in fmt's printArg to compare the %s arm with", g, tn))
+				continue
+			}
+			got := strings.ReplaceAll(render(p, mf, cc), valueExpr, "$F () ")
+			c.check(got == want, key, cc, "fmt's arm for "+g+" applied to the object's value", fmt.Sprintf("the %s arm of printArg is not fmt's arm for %s applied to the value: %s", tn, g, firstDiff(got, want)))
+		}
+	}
+	c.check(hasDefault, "printarg/has-default", mts, "objects without a dedicated arm are still formatted", "printArg has no default arm")
+	// %T and %v first
+	prelude := map[string]string{}
+	ast.Inspect(mf.Body, func(nd ast.Node) bool {
+		sw, ok := nd.(*ast.SwitchStmt)
+		if !ok || sw.Tag == nil || w.Src(sw.Tag) != "verb" {
+			return true
+		}
+		for _, cl := range sw.Body.List {
+			cc := cl.(*ast.CaseClause)
+			for _, e := range cc.List {
+				if k, ok := ConstInt(p, e); ok {
+					prelude[string(rune(k))] = strings.ReplaceAll(w.Src(cc), " ", "")
+				}
+			}
+		}
+		return false
+	})
+	c.check(strings.Contains(prelude["T"], "fmtS(arg.TypeName())") && strings.Contains(prelude["T"], "return"), "printarg/%T", mf, "%T prints TypeName()", "%T is not served by fmtS(arg.TypeName()) before the type dispatch")
+	c.check(strings.Contains(prelude["v"], "fmtS(arg.String())") && strings.Contains(prelude["v"], "return"), "printarg/%v", mf, "%v prints String()", "%v is not served by fmtS(arg.String()) before the type dispatch")
+	if n < 6 {
+		c.fail("printarg/count", mf, fmt.Sprintf("only %d arms examined", n))
 	}
 }
 
